@@ -99,16 +99,33 @@ Theorem C10_full : forall cb0 inb nc scr ups sy sched,
 Proof. exact full. Qed.
 Print Assumptions C10_full.
 
-(* nothing is left behind: at closed quiescence pendingData and recvBuf are empty (a goroutine spawned after
-   close()'s Wait finds nothing to move into the recycled recvBuf) and a read returns end-of-stream at once *)
-Theorem C10_no_residue : forall cb0 inb nc scr ups sy sched,
+(* what a close leaves behind.  pendingData is empty at closed quiescence, always; recvBuf is empty when no callbacks
+   are installed (the event loop's closed path recycles it).  WITH callbacks the full statement is REFUTED — a
+   regression of d5a1880 ("the event loop no longer recycles the read buffer of a closed stream while its callback
+   may still be reading it") that only the finer steps show: the table lookup of an arrival precedes the clean, its
+   add (a separate step: the pendingData mutex is in between) follows it; a goroutine that outlived close()'s Wait
+   (it was spawned between the CAS on callbackInProcess and wg.Add) moves it into recvBuf, and the event loop — which
+   used to sweep recvBuf in its closed path — now leaves recvBuf alone: the slices stay in recvBuf for ever. *)
+Definition C10_no_residue : Prop := no_residue_stmt.
+Theorem C10_no_residue_refuted : ~ C10_no_residue.
+Proof.
+  intros H.
+  specialize (H true [EData [1]; EData [2]] 1%nat [] [] []
+    ([WClo 0; WClo 0] ++ repeat WEv 5 ++ [WClo 0; WClo 0; WClo 0] ++ [WEv; WEv; WEv] ++ repeat (WClo 0) 5 ++ [WEv] ++
+     repeat (WGor 0) 8 ++ [WEv; WEv; WEv])).
+  vm_compute in H. assert (E : [2] = []); [|discriminate]. apply H; auto.
+  - intros [|[|i]] g Hg; simpl in Hg; try discriminate. inversion Hg; reflexivity.
+  - intros [|[|i]] c Hc; simpl in Hc; try discriminate. inversion Hc; auto.
+Qed.
+Print Assumptions C10_no_residue_refuted.
+Theorem C10_no_residue_partial : forall cb0 inb nc scr ups sy sched,
   let s := run sched (init_sy cb0 inb nc scr ups sy) in
-  st s = c_streamClosed ->
+  st s = c_streamClosed -> epc s = EIdle ->
   (forall i g, nth_error (gors s) i = Some g -> g = GExit) ->
   (forall i c, nth_error (clos s) i = Some c -> c = KRet \/ c = KStart) ->
-  pending s = [] /\ recv s = [] /\ read_res s = REndOfStream.
-Proof. exact no_residue. Qed.
-Print Assumptions C10_no_residue.
+  pending s = [] /\ (cbset s = false -> recv s = [] /\ read_res s = REndOfStream).
+Proof. exact no_residue_partial. Qed.
+Print Assumptions C10_no_residue_partial.
 
 (* both ends: a Close() on A reaches B — once B's event loop has drained its inbox B's stream has left
    `opened` (its Flush fails, its reads return the flushed data and then end-of-stream by C10_peer) *)
@@ -143,7 +160,7 @@ Print Assumptions C10_setcallbacks_race_refuted.
 (* ---------- regression examples: the former refutation witnesses now end well ---------- *)
 (* (1) one message, OnData consumes it and calls Close() (formerly C10_refuted) *)
 Example C10_regress_close_inside_OnData :
-  let s := run (repeat WEv 6 ++ repeat (WGor 0) 40) (init true [EData [1]] 0 [(1%nat, 1%nat)] []) in
+  let s := run (repeat WEv 7 ++ repeat (WGor 0) 40) (init true [EData [1]] 0 [(1%nat, 1%nat)] []) in
   khalf s = true /\ st s = c_streamClosed /\ intable s = false /\ nlocal s = 1 /\ nremote s = 0 /\ out s = [EClose] /\
   gors s = [GExit].
 Proof. vm_compute. repeat split. Qed.
@@ -158,7 +175,7 @@ Proof. vm_compute. repeat split. Qed.
 (* non-vacuity: synchronous mode, A flushes [5;6] and closes, B handles both events: A is closed, out of the
    table, reported once, told B; B is half-closed, still has the data to read, cannot flush *)
 Example C10_example_run :
-  let w := wrun (repeat (SA, WUser 0%nat) 3 ++ repeat (SA, WClo 0%nat) 10 ++ repeat (SB, WEv) 6)
+  let w := wrun (repeat (SA, WUser 0%nat) 4 ++ repeat (SA, WClo 0%nat) 10 ++ repeat (SB, WEv) 8)
                 (winit false false 1 0 [] [] [[[5; 6]]] []) in
   quiesc (wa w) /\ close_returned (wa w) /\
   st (wa w) = c_streamClosed /\ intable (wa w) = false /\ nlocal (wa w) = 1 /\ out (wa w) = [EData [5; 6]; EClose] /\
@@ -173,12 +190,12 @@ Qed.
 (* (3) Close() called twice inside the same OnData: the second call finds the stream already locally half-closed,
    its CAS fails and it returns; the goroutine's exit path completes the close *)
 Example C10_regress_repeated_close_inside_OnData :
-  let s := run (repeat WEv 6 ++ repeat (WGor 0) 50) (init true [EData [1]] 0 [(1%nat, 2%nat)] []) in
+  let s := run (repeat WEv 7 ++ repeat (WGor 0) 50) (init true [EData [1]] 0 [(1%nat, 2%nat)] []) in
   st s = c_streamClosed /\ intable s = false /\ nlocal s = 1 /\ nremote s = 0 /\ out s = [EClose] /\ gors s = [GExit].
 Proof. vm_compute. repeat split. Qed.
 (* (4) Close() inside OnData after the peer's close notification was handled while that OnData was running *)
 Example C10_regress_close_inside_OnData_after_peer_close :
-  let s := run (repeat WEv 6 ++ repeat (WGor 0) 3 ++ repeat WEv 3 ++ repeat (WGor 0) 50)
+  let s := run (repeat WEv 7 ++ repeat (WGor 0) 3 ++ repeat WEv 3 ++ repeat (WGor 0) 50)
                (init true [EData [1]; EClose] 0 [(1%nat, 1%nat)] []) in
   st s = c_streamClosed /\ intable s = false /\ nlocal s = 0 /\ nremote s = 1 /\ out s = [] /\ gors s = [GExit].
 Proof. vm_compute. repeat split. Qed.
@@ -192,7 +209,7 @@ Proof. vm_compute. repeat split. Qed.
    stays in the table, OnLocalClose is never called and the peer is never told. *)
 Definition seeded_fallthrough (s : est) : est := setg 0 (GCbClose CLd 0) s.
 Example C10_seeded_close_fallthrough_self_deadlock :
-  let s1 := run (repeat WEv 6 ++ repeat (WGor 0) 9) (init true [EData [1]] 0 [(1%nat, 2%nat)] []) in
+  let s1 := run (repeat WEv 7 ++ repeat (WGor 0) 9) (init true [EData [1]] 0 [(1%nat, 2%nat)] []) in
   nth_error (gors s1) 0 = Some (GCbClose KHalf 0) /\ st s1 = v_streamLocalHalfClosed /\
   let s2 := run (repeat (WGor 0) 100) (seeded_fallthrough s1) in
   nth_error (gors s2) 0 = Some (GCbClose (CWait v_streamLocalHalfClosed) 0) /\ wg s2 = 1 /\
@@ -204,7 +221,7 @@ Proof. vm_compute. repeat split. Qed.
    user thread 0 running inside that OnData — flushes once more before OnData returns: the Flush fails, nothing
    but the close element is ever sent; a Flush begun BEFORE the Close (user thread 1) was sent *)
 Example C10_flush_after_close_inside_OnData :
-  let s := run (repeat (WUser 1) 3 ++ repeat WEv 6 ++ repeat (WGor 0) 7 ++ repeat (WUser 0) 3 ++ repeat (WGor 0) 40)
+  let s := run (repeat (WUser 1) 4 ++ repeat WEv 7 ++ repeat (WGor 0) 7 ++ repeat (WUser 0) 4 ++ repeat (WGor 0) 40)
                (init true [EData [1]] 0 [(1%nat, 1%nat)] [[[9]]; [[8]]]) in
   map ures (users s) = [[(false, true)]; [(true, false)]] /\ out s = [EData [8]; EClose] /\
   st s = c_streamClosed /\ nret s = 1.
